@@ -757,8 +757,9 @@ func c16errs(p *Prog, r *Report) {
 // and has no gaps: when the window is full, roll() must keep a SUFFIX of the list — a reslice
 // items[k:], a copy of it into a fresh list, or an in-place shift copy(items, items[k:]) followed by
 // items[:len(items)-k] (checked as an identity of linear forms) — never a prefix or a shorter tail.
-func c16roll(p *Prog, r *Report) {
-	const rule = "C16.roll"
+func c16roll(p *Prog, r *Report) { rollRule(p, r, "C16.roll") }
+
+func rollRule(p *Prog, r *Report, rule string) {
 	r.Rule(rule, 1, "RollingIndex.roll keeps a suffix of the window (the newest items, up to the last one)")
 	fn := p.Func(COMM, "RollingIndex", "roll")
 	fItems := p.Field(COMM, "RollingIndex", "items")
